@@ -295,3 +295,72 @@ M('c16-range-compares-raw-names-after-conversion', 'C16', 'R10', 'falcon/request
 """, """                if last.strip() < first.strip():
                     raise ValueError()
 """, also=('C09',))
+
+# ---- wave 8
+REQ = 'falcon/request.py'
+# R3: a result without a content range only for "no Range" / "empty file" - every satisfiable form is a 206
+M('c16-open-ended-whole-file-answered-200', 'C16', 'R3', ST,
+  """    fh.seek(start)
+    if end == -1:
+""", """    if start == 0 and end == -1:
+        return fh, size, None
+
+    fh.seek(start)
+    if end == -1:
+""")
+M('c16-closed-whole-file-answered-200', 'C16', 'R3', ST,
+  """    if start >= size:
+        fh.close()
+""", """    if start == 0 and end >= size - 1:
+        return fh, size, None
+    if start >= size:
+        fh.close()
+""")
+M('c16-suffix-whole-file-answered-200', 'C16', 'R3', ST,
+  "        start = max(start, -size)\n",
+  "        start = max(start, -size)\n        if start == -size:\n            return fh, size, None\n")
+# R4 / R9: the 304 decision does not read the server's clock
+_IMS = """        if req.if_modified_since is not None and last_modified <= req.if_modified_since:
+            resp.status = falcon.HTTP_304
+            return
+"""
+M('c16-future-if-modified-since-invalid', 'C16', 'R4', ST, _IMS,
+  """        if_modified_since = req.if_modified_since
+        if (
+            if_modified_since is not None
+            and if_modified_since <= datetime.now(timezone.utc)
+            and last_modified <= if_modified_since
+        ):
+            resp.status = falcon.HTTP_304
+            return
+""")
+M('c16-future-if-modified-since-withdrawn', 'C16', 'R9', ST, _IMS,
+  """        ims = req.if_modified_since
+        if ims is not None and ims > datetime.now(timezone.utc):
+            ims = None
+        if ims is not None and last_modified <= ims:
+            resp.status = falcon.HTTP_304
+            return
+""")
+M2('c16-no-304-for-just-modified-file', 'C16', 'R4', [
+    {'file': ST, 'old': "import re\n", 'new': "import re\nimport time\n"},
+    {'file': ST, 'old': _IMS, 'new': """        if req.if_modified_since is not None and last_modified <= req.if_modified_since and st.st_mtime < time.time() - 1:
+            resp.status = falcon.HTTP_304
+            return
+"""}])
+# R11: undecodable request-path bytes arrive as U+FFFD, which the route's disallowed-characters test rejects
+_DEC = "            path = path.encode('iso-8859-1').decode('utf-8', 'replace')\n"
+M('c16-undecodable-path-kept-as-latin1', 'C16', 'R11', REQ, _DEC,
+  """            try:
+                path = path.encode('iso-8859-1').decode('utf-8')
+            except UnicodeDecodeError:
+                pass
+""", also=('C06',))
+M('c16-undecodable-path-bytes-dropped', 'C16', 'R11', REQ, _DEC,
+  "            path = path.encode('iso-8859-1').decode('utf-8', 'ignore')\n", also=('C06',))
+M('c16-undecodable-path-raises', 'C16', 'R11', REQ, _DEC,
+  "            path = path.encode('iso-8859-1').decode('utf-8')\n", also=('C06', 'C04'))
+M('c16-disallowed-chars-pattern-without-fffd', 'C16', 'R11', ST, "\\x9f\\ufffd~", "\\x9f~")
+M('c16-disallowed-chars-test-skipped-with-fallback', 'C16', 'R11', ST,
+  "            or self._DISALLOWED_CHARS_PATTERN.search(without_prefix)\n",
+  "            or (self._fallback_filename is None and self._DISALLOWED_CHARS_PATTERN.search(without_prefix))\n")
